@@ -52,6 +52,7 @@ func randCfg(r *hx.Rng, adversarial bool) *c09lib.Cfg {
 	c.White = subset(r, []string{"ukex", "ubtc", "xeth", "frozen", "ufoo"}, 60)
 	c.EnBlack, c.EnWhite = r.Chance(60), r.Chance(25)
 	c.Foreign = r.Chance(75)
+	c.ViaGov = !adversarial && r.Chance(30)
 	c.MinFee = uint64(1 + r.Intn(300))
 	c.MaxFee = c.MinFee + uint64(r.Intn(5000))
 	if r.Chance(15) {
@@ -304,6 +305,13 @@ func (g *gen) fee(c *c09lib.Cfg, ms []c09lib.M) []sdk.Coin {
 	return out
 }
 
+func sweepTag(fc *c09lib.FreezeCase) string {
+	if fc == nil {
+		return ""
+	}
+	return fc.Tag
+}
+
 func has(xs []string, x string) bool {
 	for _, y := range xs {
 		if y == x {
@@ -374,7 +382,10 @@ func main() {
 
 	proposer := app.CustomStakingKeeper.GetValidatorSet(ctx0)[0].GetConsAddr()
 	height := int64(1)
-	for b := 0; b < *n; b++ {
+	sweep := c09lib.FreezeSweep(func() *c09lib.Cfg {
+		return &c09lib.Cfg{NVals: 1, MinVals: 1, MaxSend: 1000, MinFee: 100, MaxFee: 1000000}
+	})
+	for b := 0; b < *n+len(sweep); b++ {
 		hdr := tmproto.Header{Height: height, Time: time.Unix(1700000000+height*6, 0).UTC(), ProposerAddress: proposer}
 		app.BeginBlock(abci.RequestBeginBlock{Header: hdr})
 		ctx := app.BaseApp.NewContext(false, hdr)
@@ -390,7 +401,14 @@ func main() {
 		}
 		// every fourth block: repeated message types and fees swept around every partial sum of the
 		// per-message execution-fee requirements
-		repeatBlock := b >= 2 && b%4 == 2
+		// the shared freeze-configuration sweep: one block per corner, a fee paid in the token and a send of the token
+		var fc *c09lib.FreezeCase
+		if b >= 2 && b-2 < len(sweep) {
+			fc = &sweep[b-2]
+			c = fc.Cfg
+			adversarial = false
+		}
+		repeatBlock := fc == nil && b >= 2 && b%4 == 2
 		if repeatBlock {
 			c.Tokens[0] = c09lib.Tok{Denom: "ukex", Rate: sdk.NewDec(1), FeeEnabled: true}
 			c.Black, c.EnBlack, c.EnWhite, c.Foreign, c.Custody = nil, false, false, true, nil
@@ -434,6 +452,9 @@ func main() {
 		balsCoq := c09lib.BalsCoq(e.Balances(ctx, watch))
 		histsCoq := e.HistsCoq(ctx, watch)
 		ntx := 1 + r.Intn(3)
+		if fc != nil {
+			ntx = 2
+		}
 		var txCoq []string
 		var txJS []interface{}
 		for i := 0; i < ntx; i++ {
@@ -466,11 +487,22 @@ func main() {
 				ms, feeOverride = g.repeatTx(c, from)
 				failAt = -1
 			}
+			if fc != nil {
+				from, failAt = signers[i], -1
+				if i == 0 { // the fee is paid in the token
+					ms = []c09lib.M{{Kind: "send", From: from, To: "a3", Amt: sdk.NewCoins(sdk.NewInt64Coin("ukex", 3))}}
+					feeOverride = []sdk.Coin{fc.Fee}
+				} else { // the token is sent
+					ms = []c09lib.M{{Kind: "send", From: from, To: "a3", Amt: sdk.NewCoins(sdk.NewInt64Coin(fc.Token, 5))}}
+					feeOverride = []sdk.Coin{sdk.NewInt64Coin("ukex", 170)}
+				}
+			}
+			special := repeatBlock || fc != nil
 			t := c09lib.TxSpec{Msgs: ms, SigOK: !r.Chance(3)}
-			if repeatBlock {
+			if special {
 				t.SigOK = true
 			}
-			if b >= 2 && !repeatBlock && r.Chance(10) { // an Ethereum native send from an Ethereum-style account
+			if b >= 2 && !special && r.Chance(10) { // an Ethereum native send from an Ethereum-style account
 				em := c09lib.M{Kind: "eth", From: []string{"e0", "e1"}[r.Intn(2)], To: g.people[r.Intn(len(g.people))], EthAmt: int64(r.Intn(600))}
 				if r.Chance(30) {
 					em.EthRem = int64(r.Intn(1000000))
@@ -485,10 +517,10 @@ func main() {
 				}
 				t.Msgs = ms
 			}
-			if b >= 2 && !repeatBlock && r.Chance(8) {
+			if b >= 2 && !special && r.Chance(8) {
 				t.Payer = signers[r.Intn(4)]
 			}
-			if b >= 2 && !repeatBlock {
+			if b >= 2 && !special {
 				t.NoGas, t.Grant = r.Chance(2), r.Chance(2)
 			}
 			sg := c09lib.SignersOf(t)
@@ -496,13 +528,18 @@ func main() {
 			for k, s := range sg {
 				seqs[k] = seqOf(ctx, s)
 			}
-			if r.Chance(4) && !repeatBlock {
+			if r.Chance(4) && !special {
 				seqs[r.Intn(len(seqs))] += uint64(1 + r.Intn(2))
 			}
 			t.Fee, t.Seqs = g.fee(c, ms), seqs
-			if repeatBlock {
+			if special {
 				t.Fee = feeOverride
+			}
+			if repeatBlock {
 				dist.Inc("tx:repeated-types")
+			}
+			if fc != nil {
+				dist.Inc("tx:freeze-sweep")
 			}
 			if b < 2 && i == 0 {
 				t.Fee, t.SigOK = []sdk.Coin{sdk.NewInt64Coin("ukex", 100)}, true
@@ -551,7 +588,7 @@ func main() {
 		eo := fmt.Sprintf("(mkEnd %d %s %s %s)", eclass, c09lib.DeltasCoq(ed), e.ExecsCoq(ctx), e.HistsCoq(ctx, watch))
 		lines = append(lines, fmt.Sprintf("CBlock %s %s %s %s %s %s %s %s", e.CfgCoq(c), acctsCoq, balsCoq, histsCoq, c09lib.StrListCoq(watch),
 			c09lib.StrListCoq(c09lib.Denoms), hx.List(txCoq), eo))
-		js = append(js, map[string]interface{}{"kind": "block", "level": "ABCI BeginBlock/DeliverTx/EndBlock/Commit", "height": height, "config": c.JSON(), "adversarial_config": adversarial,
+		js = append(js, map[string]interface{}{"kind": "block", "level": "ABCI BeginBlock/DeliverTx/EndBlock/Commit", "height": height, "config": c.JSON(), "adversarial_config": adversarial, "sweep": sweepTag(fc),
 			"txs": txJS, "end_block_class": eclass, "end_block_panic": p, "end_block_deltas": ed})
 		dist.Inc(fmt.Sprintf("block:txs=%d", ntx))
 		dist.Inc(fmt.Sprintf("block:end_class%d", eclass))
